@@ -89,7 +89,7 @@ def calm_transfer(S, cid, name, content, now, opts=b''):
 def run(ctx, build):
     R = ctx.try_runner('Tftp')
     rng = ctx.rng
-    nsess = 300 if ctx.thorough else 80
+    nsess = 5000 if ctx.thorough else 80
     if ctx.widen:
         nsess *= 2
     replies = 0
